@@ -299,7 +299,7 @@ def x9_run(ctx, st, pid="C18", only=""):
 
 
 def run(ctx):
-    xst = core.run_extract(ctx, ["supervisor", "servicetree"])
+    xst = core.run_extract(ctx, ["supervisor", "servicetree", "supervisor_options"])
     core.coq_prove(ctx, "C18")
     if ctx.tier == "thorough":
         core.coq_thorough_audit(ctx, "C18")
